@@ -157,6 +157,13 @@ def make_worker(tier):
                         shutil.copy(os.path.join(work, fn), os.path.join(sub, fn))
                 res = cbuild.compile_and_run(sub, [cname, "can_signal_parser.c"], main_c)
                 S.count("executions")
+                if tier != "quick" and "stdout" in res and idx % 4 == 0:
+                    # second opinion: clang -O2 must print exactly what gcc -O0 printed
+                    res2 = cbuild.compile_and_run(sub, [cname, "can_signal_parser.c"], main_c, cc="clang", extra_flags=("-O2",))
+                    S.count("executions")
+                    S.count("clang_builds")
+                    if res2.get("stdout") != res.get("stdout"):
+                        S.violation("C06.compilers", "C06.compilers/clang-O2-differs-from-gcc-O0/%s" % coarse_class(combo), inp, expected=res.get("stdout", "")[:400], actual=str(res2)[:600])
                 if "compile_error" in res:
                     S.add("outcomes", "cc-error")
                     S.violation("C06.compile", "C06.compile/cc-error/%s/%s" % (cbuild.first_error(res["compile_error"]), coarse_class(combo)), inp, expected="compiles", actual=res["compile_error"][-600:])
